@@ -52,7 +52,8 @@ class NackReason:
 
 
 class NetworkNack(TlvModel):
-    nack_reason = UintField(LpTypeNumber.NACK_REASON)
+    # NDNLPv2: the NackReason element may be omitted; the Nack is then one without a stated reason (None)
+    nack_reason = UintField(LpTypeNumber.NACK_REASON, default=NackReason.NONE)
 
 
 class CachePolicy(TlvModel):
